@@ -657,6 +657,9 @@ func (m *vgfM) apply(op vgfOp) {
 				m.vals[c] = op.Vals[i]
 			}
 		}
+		// the large path waits for the queued snapshot: a pending one runs first (the worker would get to it
+		// at the latest now), then the harness plays the queue worker for exactly the one this call enqueues
+		m.drain()
 		f.mu.Lock()
 		large := !(len(op.Cols)*int(m.depth+1)+f.opN < f.MaxOpN)
 		f.mu.Unlock()
@@ -665,8 +668,6 @@ func (m *vgfM) apply(op vgfOp) {
 		if large {
 			path = "importValueLarge"
 			if m.q != nil {
-				// the large path waits for the queued snapshot: play the queue worker for exactly this one
-				m.drain()
 				done = make(chan struct{})
 				go func() {
 					fr := <-m.q
